@@ -14,8 +14,14 @@ from .model import RefState
 
 
 def build_instance(inst):
-    """Fresh JobShopInstance from an instance case."""
-    return instance_from_jobs(inst, build_jobs(inst))
+    """Fresh JobShopInstance from an instance case.  With ``recycled`` the
+    Operation objects first belong to another, differently shaped instance
+    (one job holding all operations in reverse order), which has assigned
+    them other job ids / positions / operation ids."""
+    jobs = build_jobs(inst)
+    if inst.get("recycled"):
+        JobShopInstance([[o for job in reversed(jobs) for o in reversed(job)]], name="other")
+    return instance_from_jobs(inst, jobs)
 
 
 def instance_from_jobs(inst, jobs):
